@@ -79,7 +79,7 @@ if TYPE_CHECKING:
     from .file import _GitFile
 
 from .errors import PackedRefsException, RefFormatError
-from .file import GitFile, ensure_dir_exists
+from .file import FileLocked, GitFile, ensure_dir_exists
 from .objects import ZERO_SHA, ObjectID, git_line, valid_hexsha
 
 Ref = NewType("Ref", bytes)
@@ -1052,6 +1052,23 @@ class DiskRefsContainer(RefsContainer):
         if not new_refs:
             return
 
+        self._write_packed_refs(new_refs)
+
+        # Only now that the new packed-refs file is in place may the loose
+        # files go: removing them first would make the refs invisible to
+        # concurrent readers (and lose them in a crash) until the rename.
+        for ref in new_refs:
+            # remove any loose refs pointing to this one -- please
+            # note that this bypasses remove_if_equals as we don't
+            # want to affect packed refs in here
+            with suppress(OSError):
+                os.remove(self.refpath(ref))
+            # do not leave the now possibly empty directories behind:
+            # they would stand in the way of a ref of that name
+            self._remove_empty_parents(ref)
+
+    def _write_packed_refs(self, new_refs: Mapping[Ref, ObjectID | None]) -> None:
+        """Rewrite packed-refs with the given entries set or removed."""
         path = os.path.join(self.path, b"packed-refs")
 
         try:
@@ -1063,15 +1080,6 @@ class DiskRefsContainer(RefsContainer):
                     # sanity check
                     if ref == HEADREF:
                         raise ValueError("cannot pack HEAD")
-
-                    # remove any loose refs pointing to this one -- please
-                    # note that this bypasses remove_if_equals as we don't
-                    # want to affect packed refs in here
-                    with suppress(OSError):
-                        os.remove(self.refpath(ref))
-                    # do not leave the now possibly empty directories behind:
-                    # they would stand in the way of a ref of that name
-                    self._remove_empty_parents(ref)
 
                     if target is not None:
                         packed_refs[ref] = target
@@ -1085,6 +1093,30 @@ class DiskRefsContainer(RefsContainer):
             # lock is released but before the stat. Reload on the next access
             # instead.
             self._invalidate_packed_refs_cache()
+
+    def _prune_loose_ref(self, ref: Ref, target: ObjectID) -> None:
+        """Remove the loose file of a ref that has just been packed.
+
+        The file is removed under the lock of the ref, and only if it still
+        holds the packed value: a value written in the meantime is newer than
+        the packed one and must keep taking precedence.
+        """
+        filename = self.refpath(ref)
+        try:
+            lock = GitFile(filename, "wb")
+        except (FileLocked, OSError):
+            # somebody is updating the ref, or there is no loose file (nor a
+            # directory for it): nothing to prune
+            return
+        try:
+            if self.read_loose_ref(ref) == target:
+                with suppress(OSError):
+                    os.remove(filename)
+        finally:
+            lock.abort()
+        # do not leave the now possibly empty directories behind: they would
+        # stand in the way of a ref of that name
+        self._remove_empty_parents(ref)
 
     def get_peeled(self, name: Ref) -> ObjectID | None:
         """Return the cached peeled value of a ref, if available.
@@ -1468,6 +1500,10 @@ class DiskRefsContainer(RefsContainer):
                 if orig_ref != old_ref:
                     return False
 
+            # remove the packed entry first: with the loose file gone an
+            # older packed value would become visible until it is removed too
+            self._remove_packed_ref(name)
+
             # remove the reference file itself
             try:
                 found = os.path.lexists(filename)
@@ -1477,8 +1513,6 @@ class DiskRefsContainer(RefsContainer):
 
             if found:
                 os.remove(filename)
-
-            self._remove_packed_ref(name)
             self._log(
                 name,
                 old_ref,
@@ -1520,7 +1554,12 @@ class DiskRefsContainer(RefsContainer):
                 refs_to_pack[ref] = ObjectID(contents)
 
         if refs_to_pack:
-            self.add_packed_refs(refs_to_pack)
+            self._write_packed_refs(refs_to_pack)
+            # The values were read without holding the refs' locks: a loose
+            # file may go only if it still holds the value that was packed.
+            for ref, target in refs_to_pack.items():
+                if target is not None:
+                    self._prune_loose_ref(ref, target)
 
 
 def _split_ref_line(line: bytes) -> tuple[ObjectID, Ref]:
